@@ -348,9 +348,12 @@ def script_compression(ctx, P):
     ign = [o for o in rest if o[1] == "ignore"]
     raw = [o for o in rest if o[1] == "span" and o[2] == ["param", "#1"]]
     rs = sites(r, lambda e: is_call_to("prevector::resize", e) and e[2] == ["param", "#1"], P)
+    # the not-special test is made on the size word BEFORE the offset is subtracted (an older version of the local):
+    # the version tag is dropped here, the order test/subtract/consume is checked separately below
+    unstale = F.unstale
     ok = len(rest) == 2 and len(ign) == 1 and len(raw) == 1 and ign[0][2] == ["local", n] and len(rs) == 1 and call_args(rs[0].expr)[:1] == [["local", n]] and \
         rs[0].line < raw[0][4] and F.equivalent(guard_formula(rs[0]), raw[0][3]) and \
-        F.equivalent(F.mk_or([ign[0][3], raw[0][3]]), F.mk_not(SPECIAL)) and F.implies(F.mk_and([ign[0][3], raw[0][3]]), F.Fa)
+        F.equivalent(unstale(F.mk_or([ign[0][3], raw[0][3]])), F.mk_not(SPECIAL)) and F.implies(F.mk_and([ign[0][3], raw[0][3]]), F.Fa)
     if ok and subs:
         sub_line = [st.get("l") for st, e in all_exprs(r.body) for x in subexprs(e) if x is subs[0]][0]
         ok = sub_line < min(ign[0][4], raw[0][4])
